@@ -59,7 +59,16 @@ fn diff_script(m: &VfsPath, p: &VfsPath, path: &str, len: u64, script: &[ROp], t
                     (a, b) => return Err(format!("read handle of '{}': seek({:?}) gives {:?} on MemoryFS but {:?} on PhysicalFS", path, sf, a.map_err(|e| e.to_string()), b.map_err(|e| e.to_string()))),
                 }
             }
-            ROp::Read(k, n) => {
+            ROp::ReadToEnd => {
+                let (mut va, mut vb) = (vec![], vec![]);
+                let a = std::io::Read::read_to_end(&mut hm, &mut va);
+                let b = std::io::Read::read_to_end(&mut hp, &mut vb);
+                trace.push(format!("  script read_to_end -> mem {:?} / phys {:?}", a.as_ref().map_err(|e| e.kind()), b.as_ref().map_err(|e| e.kind())));
+                if a.is_ok() != b.is_ok() || (a.is_ok() && va != vb) {
+                    return Err(format!("read handle of '{}': read_to_end gives {:?} bytes on MemoryFS but {:?} on PhysicalFS", path, a.map(|_| va.len()).map_err(|e| e.to_string()), b.map(|_| vb.len()).map_err(|e| e.to_string())));
+                }
+            }
+            ROp::Read(k, n) | ROp::ReadExact(k, n) => {
                 let want = read_size(*k, *n, len as usize);
                 let a = read_full(&mut hm, want);
                 let b = read_full(&mut hp, want);
